@@ -151,6 +151,17 @@ Theorem eam_plus_links_d8 : forall sds subncol cs ncol ea, 0 < cs -> 0 < subncol
 Proof. exact UpscaleD8.eam_plus_links_d8_checked. Qed.
 Print Assumptions eam_plus_links_d8.
 
+(* ... and every link of dmm, when the scale factor is at least 2: the trace stops at most one pixel beyond a window of
+   one cell's width centred on a corner of the start cell, which reaches into that cell's three neighbours at the corner
+   only.  (With scale factor 1 the window reaches further: known finding F9.) *)
+Theorem dmm_links_d8 : forall sds subncol cs nrow ncol, 2 <= cs -> 0 < subncol -> subncol <= ncol * cs ->
+  (forall t, t < length sds -> sd sds t < length sds -> sd sds (sd sds t) < length sds) ->
+  (forall t, t < length sds -> sd sds t < length sds -> in_d8 t (sd sds t) subncol = true) ->
+  forall idx0 s, s < length sds -> sd sds s < length sds -> cellof subncol cs ncol s = idx0 ->
+  let r := dmm_walk sds subncol cs nrow ncol (S (length sds)) idx0 s s idx0 in r < nrow * ncol -> in_d8 idx0 r ncol = true.
+Proof. exact UpscaleD8.dmm_links_d8. Qed.
+Print Assumptions dmm_links_d8.
+
 (* LOOP-FREE COARSE NETWORKS (methods eam and eam_plus).  When the upstream area is positive on the fine network and strictly
    larger at the downstream pixel (true of every accumulation of positive cell areas; a user-supplied field need not be),
    every coarse link either is a coarse pit or leads to a cell whose representative pixel (eam) / outlet pixel (eam_plus)
